@@ -17,7 +17,7 @@ from util import J
 
 LEVEL = "proof"
 RULE = ("base points x of order 2..5 (quick 2..4) with minimal ranks (rounded random tensors) and mode sizes 2..4, tensors and operators; z, w of arbitrary ranks; "
-        "f in {0.5||y-a||², <c,y>, sum(y⊙y⊙y⊙y)}; plus direct integer cases for _delta2cores. Non-trivial: every case.")
+        "f in {0.5||y-a||², <c,y>, sum(y⊙y⊙y⊙y)} on tensors and (every third case) operators incl. base points with r_k*M_k = r_{k+1}; plus direct integer cases for _delta2cores. Non-trivial: every case.")
 ASSUMPTIONS = ["QR returns orthonormal factors (gauge conditions); the projector identities are checked numerically on the real code (tolerance 1e-9 relative) — they follow from delta2cores_full + the gauge conditions",
                "autograd for riemannian_gradient"]
 TOL = 1e-9
@@ -112,28 +112,40 @@ def proj_case(rng, tier, ci, ties):
 
 def grad_case(rng, tier, ci):
     d = rng.choice([2, 3, 3, 4])
+    ttm = ci % 3 == 1 and d <= 3
     N = [rng.randint(2, 4 if d <= 3 else 3) for _ in range(d)]
+    M = [rng.randint(2, 3) for _ in range(d)] if ttm else None
     fam = rng.choice(["quadratic", "linear", "quartic"])
     seed = rng.randrange(1 << 30)
-    label = "gradient/%s/d%d" % (fam, d)
+    label = "gradient/%s/%s/d%d" % (fam, "ttm" if ttm else "tt", d)
     box = {}
 
     def impl():
         tn.manual_seed(seed)
-        x = minimal_point(rng, N)
-        a = torchtt.random(N, [1] + [2] * (d - 1) + [1])
+        shp = N if M is None else [(m, n) for m, n in zip(M, N)]
+        if ttm and rng.random() < 0.6:
+            # base points whose rank equals the row-mode size of the preceding core (r_k * M_k == r_{k+1}: 'square' left unfoldings)
+            kk = rng.randrange(d - 1)
+            R = [1]
+            for k in range(d - 1):
+                R.append(R[k] * M[k] if (k == kk and R[k] * M[k] <= 6) or (k == 0 and kk > 0 and rng.random() < 0.5) else rng.randint(1, 3))
+            R.append(1)
+            x = torchtt.random(shp, R).round(1e-12)
+        else:
+            x = minimal_point(rng, N, M)
+        a = torchtt.random(shp, [1] + [2] * (d - 1) + [1])
         da = dense_of(a)
         if fam == "quadratic":
             f_tt = lambda y: 0.5 * (y - a).norm(True)
             g_dense = lambda dy: dy - da
         elif fam == "linear":
-            f_tt = lambda y: torchtt.dot(y, a)
+            f_tt = (lambda y: (y * a).sum()) if ttm else (lambda y: torchtt.dot(y, a))
             g_dense = lambda dy: da
         else:
             f_tt = lambda y: ((y * y) * (y * y)).sum()
             g_dense = lambda dy: 4 * dy ** 3
         g = MF.riemannian_gradient(x, f_tt)
-        G = torchtt.TT(g_dense(dense_of(x)), eps=1e-14)
+        G = torchtt.TT(g_dense(dense_of(x)), shape=shp if ttm else None, eps=1e-14)
         PG = MF.riemannian_projection(x, G)
         box.update(g=g, PG=PG, x=x)
         return "ok"
@@ -142,14 +154,14 @@ def grad_case(rng, tier, ci):
         if "g" not in box:
             return "riemannian_gradient raised"
         g, PG, x = box["g"], box["PG"], box["x"]
-        if list(g.N) != list(x.N):
+        if list(g.N) != list(x.N) or g.is_ttm != x.is_ttm or (x.is_ttm and list(g.M) != list(x.M)):
             return "gradient has shape %s" % (g.N,)
         e = float(tn.linalg.norm((dense_of(g) - dense_of(PG)).reshape(-1)))
         ref = nrm(PG) + 1e-300
         if e > 1e-8 * ref and e > 1e-10:
-            return "riemannian_gradient differs from the projection of the Euclidean gradient: rel %.3g (%s)" % (e / ref, fam)
+            return "riemannian_gradient differs from the projection of the Euclidean gradient: rel %.3g (%s)" % (e / ref, label)
         return None
-    return Case(None, impl, oracle, label, True, desc="riemannian_gradient %s N=%s seed=%d" % (fam, N, seed))
+    return Case(None, impl, oracle, label, True, desc="riemannian_gradient %s N=%s M=%s seed=%d" % (fam, N, M, seed))
 
 
 def delta_case(rng, ci):
@@ -184,7 +196,7 @@ def run(res, rng, tier, known):
     ties = []
     cases = [delta_case(rng, c) for c in range(20 if tier == "quick" else 150)]
     cases += [proj_case(rng, tier, c, ties) for c in range(16 if tier == "quick" else 200)]
-    cases += [grad_case(rng, tier, c) for c in range(8 if tier == "quick" else 100)]
+    cases += [grad_case(rng, tier, c) for c in range(15 if tier == "quick" else 120)]
     run_cases(res, cases, known)
     # model projection from the captured gauges (exact rationals) vs the real projection (float)
     if ties:
